@@ -125,10 +125,36 @@ def c11_2(ctx, ss):
         raise AnchorMissing("recursively_replace: expected one positional store")
     st = stores[0]
     lps = enclosing(ff, st, (ast.For,))
+    t = st.targets[0]
+    if not lps and isinstance(t.slice, ast.Slice) and t.slice.lower is None and t.slice.upper is None and t.slice.step is None:
+        # whole-list form: L[:] = [recursively_replace(x) if x in self.decays else x for x in L]
+        v = st.value
+        okc = isinstance(v, ast.ListComp) and len(v.generators) == 1 and not v.generators[0].ifs and txt(v.generators[0].iter) == txt(t.value) \
+            and isinstance(v.generators[0].target, ast.Name) and isinstance(v.elt, ast.IfExp)
+        why_ = "the replacement is not an element-wise map over the whole list"
+        if okc:
+            el = v.generators[0].target.id
+            atoms = guards.canon_cond(v.elt.test, True)
+            yes, no = (v.elt.body, v.elt.orelse) if atoms[0][1] else (v.elt.orelse, v.elt.body)
+            okc = len(atoms) == 1 and txt(atoms[0][0]) == f"{el} in self.decays" and isinstance(yes, ast.Call) and txt(yes.func) == "recursively_replace" \
+                and len(yes.args) == 1 and txt(yes.args[0]) == el and txt(no) == el
+            why_ = f"element is `{txt(v.elt)[:80]}`"
+        if okc:
+            ctx.holds("C11.2", k, where(ff, st), "every position whose daughter decays is replaced by that daughter's own sub-chain (element-wise map over the whole list)", 4)
+        else:
+            ctx.violation("C11.2", k, where(ff, st), why_)
+        lps = [None]
     if not lps:
         raise AnchorMissing("positional store outside a loop")
     lp = lps[0]
-    t = st.targets[0]
+    if lp is None:
+        pass
+    else:
+        _c11_2_loop(ctx, ff, flow, k, st, t, lp)
+    _c11_2_frame(ctx, ss, ff, flow, t)
+
+
+def _c11_2_loop(ctx, ff, flow, k, st, t, lp):
     it = lp.iter
     ok_enum = isinstance(it, ast.Call) and txt(it.func) == "enumerate" and len(it.args) == 1 and txt(it.args[0]) == txt(t.value) \
         and isinstance(lp.target, ast.Tuple) and len(lp.target.elts) == 2
@@ -155,6 +181,9 @@ def c11_2(ctx, ss):
         if exits:
             why.append("the loop ends early (break / continue / return): only the first of several identical decaying daughters is expanded")
         ctx.violation("C11.2", k, where(ff, st), "; ".join(why))
+
+
+def _c11_2_frame(ctx, ss, ff, flow, t):
     # the list is the mode's own fs and the mode is appended once, result keyed by mother
     lst = flow.expand(t.value)
     ok_src = txt(lst) == "self.decays[mother].to_dict()['fs']"
